@@ -22,6 +22,7 @@ import (
 
 	"github.com/EdgeCast/vflow/producer"
 	"github.com/EdgeCast/vflow/zzverif/mck"
+	"github.com/EdgeCast/vflow/zzverif/venv"
 )
 
 var tmpDirOnce string
@@ -745,6 +746,144 @@ func burstSpace(tier string) mck.Space {
 	}}
 }
 
+// moveSpace: the sink is known to the producer by NAME. It goes away and comes back under the same name and port on
+// ANOTHER address (a fail-over, a rescheduled pod, a re-pointed DNS record): once it is reachable again under its
+// name, delivery must resume.
+func moveSpace(tier string) mck.Space {
+	dims := mck.Radix{3, 3} // retry-max, messages before the move (2..4)
+	return mck.FuncSpace{N: dims.Size(), F: func(idx uint64, c *mck.Ctx) {
+		d := dims.Digits(idx)
+		retry, before := d[0], d[1]+2
+		hand, msgs := messages(0)
+		hand = append(hand, hand...)
+		for i := range hand { // 12 distinct messages
+			hand[i] = append(append([]byte{}, hand[i]...), []byte(fmt.Sprintf("#%d", i))...)
+		}
+		msgs = nil
+		for _, m := range hand {
+			msgs = append(msgs, append([]byte{}, m...))
+		}
+		desc := func() interface{} {
+			return map[string]interface{}{"protocol": "tcp", "case": fmt.Sprintf("sink configured by name; %d messages, then it moves to another address, then %d more", before, len(msgs)-before), "retry-max": retry}
+		}
+		c.SetCase(desc)
+		name := fmt.Sprintf("sink-%d.verif.invalid", os.Getpid())
+		a := mck.LoopAddr()
+		ip1 := net.IPv4(a[0], a[1], a[2], 1).String()
+		ip2 := net.IPv4(a[0], a[1], a[2], 2).String()
+		s1 := newSink() // on ip1
+		_, port, _ := net.SplitHostPort(s1.addr)
+		venv.SetHost(name, ip1)
+		var s2 *sink
+		defer func() {
+			s1.closeConns(true)
+			s1.down()
+			if s2 != nil {
+				s2.closeConns(true)
+				s2.down()
+			}
+		}()
+		cfg := filepath.Join(tmpDir(), "mq.conf")
+		os.WriteFile(cfg, []byte(fmt.Sprintf("url: %s\nprotocol: tcp\nretry-max: %d\n", net.JoinHostPort(name, port), retry)), 0644)
+		p := producer.NewProducer("rawSocket")
+		p.MQConfigFile = cfg
+		var ec uint64
+		p.MQErrorCount = &ec
+		p.Logger = log.New(io.Discard, "", 0)
+		p.Chan = make(chan []byte)
+		p.Topic = "t"
+		done := make(chan error, 1)
+		go func() { done <- p.Run() }()
+		defer func() {
+			close(p.Chan)
+			select {
+			case <-done:
+			case <-time.After(10 * time.Second):
+				fmt.Fprintln(os.Stderr, "prod harness: Run did not return after the channel was closed")
+				os.Exit(3)
+			}
+		}()
+		for k := 0; k < 10 && len(s1.conns) == 0; k++ {
+			s1.acceptPending(2 * time.Second)
+		}
+		if len(s1.conns) != 1 {
+			c.Violation("producer:no-initial-connection", "the producer did not connect to the sink it was given by name", desc())
+			return
+		}
+		give := func(i int) bool {
+			select {
+			case p.Chan <- hand[i]:
+			case <-time.After(10 * time.Second):
+				c.Violation("producer:stuck", fmt.Sprintf("the producer did not take message %d within 10 s", i+1), desc())
+				return false
+			}
+			return waitIdle()
+		}
+		for i := 0; i < before; i++ {
+			if !give(i) {
+				return
+			}
+		}
+		s1.settle(p)
+		// the sink moves: gone at the old address (listener closed, connection reset - seen by the producer's socket), up at
+		// the new one under the same name and port
+		s1.down()
+		s1.closeConns(true)
+		if pc := producer.VerifConn(p); pc != nil {
+			for k := 0; k < 4000; k++ {
+				if st := tcpState(pc); st != 1 {
+					break
+				}
+				time.Sleep(500 * time.Microsecond)
+			}
+		}
+		ln, err := net.Listen("tcp4", net.JoinHostPort(ip2, port))
+		if err != nil {
+			fmt.Fprintln(os.Stderr, "prod harness: cannot listen on the second address:", err)
+			os.Exit(3)
+		}
+		s2 = &sink{addr: ln.Addr().String(), ln: ln}
+		venv.SetHost(name, ip2)
+		for i := before; i < len(hand); i++ {
+			if !give(i) {
+				return
+			}
+			s2.acceptNow()
+		}
+		s2.acceptNow()
+		s2.settle(p)
+		var got [][]byte
+		for _, b := range append(append([][]byte{}, s1.bufs...), s2.bufs...) {
+			parts := bytes.Split(b, []byte("\n"))
+			got = append(got, parts[:len(parts)-1]...)
+		}
+		c.Nontrivial(mck.Hash64([]byte(fmt.Sprint("move", d))))
+		c.States(1)
+		c.Transitions(uint64(len(msgs)))
+		j := 0
+		for gi, g := range got {
+			found := false
+			for j < len(msgs) && !found {
+				found = bytes.Equal(g, msgs[j])
+				j++
+			}
+			if !found {
+				c.Violation("producer:move:out-of-order-duplicate-or-altered", fmt.Sprintf("line %d at the sinks (%q) is not a later message than the lines before it", gi+1, string(g)), desc())
+				return
+			}
+		}
+		if len(got) == 0 || !bytes.Equal(got[len(got)-1], msgs[len(msgs)-1]) {
+			dd := desc().(map[string]interface{})
+			dd["lines_at_the_new_address"] = len(s2.bufs)
+			dd["delivered"] = len(got)
+			c.Violation("producer:move:delivery-does-not-resume", fmt.Sprintf("the sink has been reachable again under its name for %d messages; the last one handed over did not arrive (%d of %d delivered in all)", len(msgs)-before, len(got), len(msgs)), dd)
+			return
+		}
+		c.Outcome(fmt.Sprintf("resumed, %d of %d delivered", len(got), len(msgs)))
+		c.Sample(desc)
+	}}
+}
+
 // producerIn reports whether the producer goroutine is parked in the given wait state (the bracketed word of the
 // runtime's goroutine dump, e.g. "IO wait" = blocked in a socket write).
 func producerIn(state string) bool {
@@ -1014,5 +1153,5 @@ func udpSpace(tier string) mck.Space {
 }
 
 func main() {
-	mck.Main(map[string]func(string) mck.Space{"prod.tcp": tcpSpace, "prod.burst": burstSpace, "prod.stall": stallSpace, "prod.udp": udpSpace})
+	mck.Main(map[string]func(string) mck.Space{"prod.tcp": tcpSpace, "prod.burst": burstSpace, "prod.stall": stallSpace, "prod.move": moveSpace, "prod.udp": udpSpace})
 }
